@@ -111,6 +111,8 @@ type c11Result struct {
 	// the status seen by the stats handler's End event equals the returned one.
 	PostFinal string `json:"post_final_recv,omitempty"` // same | other-code | delivered-msg
 	EndAgrees string `json:"end_event,omitempty"`       // agree | differ
+	// informational: a stats.Begin without exactly one stats.End (attempt never finished)
+	AttemptEnds string `json:"attempt_ends,omitempty"`
 }
 
 func (r *c11Result) viol(kind, format string, a ...any) {
@@ -156,12 +158,6 @@ type c11RPCObs struct {
 	err3    error
 	nilLate bool   // a RecvMsg after the first error returned nil
 	send2   string // result of SendMsg after the end (informational)
-	panic   string
-}
-
-func c11Stack() string {
-	b := make([]byte, 4096)
-	return string(b[:runtime.Stack(b, false)])
 }
 
 // c11BubbleGoroutines summarises the goroutines still associated with a bubble.
@@ -240,12 +236,10 @@ func c11Scenario(g []c11Sym, variant string, seq []int, res *c11Result) {
 			p.Close()
 		}
 	}
-	defer func() {
-		if p := recover(); p != nil {
-			res.viol("panic", "panic on the harness goroutine: %v\n%s", p, c11Stack())
-			cleanup()
-		}
-	}()
+	// No recover() anywhere in the bubble: a panic that escapes the gRPC API (on
+	// the caller's goroutine or on one of grpc's own) may leave locks held, so
+	// the worker process is allowed to die and the supervisor attributes the
+	// crash to this sequence.
 
 	// Every connection the channel dials gets a polite raw server: SETTINGS,
 	// acks, nothing else. Only the first one misbehaves (below); RPCs that the
@@ -289,11 +283,6 @@ func c11Scenario(g []c11Sym, variant string, seq []int, res *c11Result) {
 	u := &c11RPCObs{done: make(chan struct{})}
 	go func() {
 		defer close(u.done)
-		defer func() {
-			if p := recover(); p != nil {
-				u.panic = fmt.Sprintf("%v\n%s", p, c11Stack())
-			}
-		}()
 		var reply []byte
 		u.err = cc.Invoke(uctx, "/c11/Unary", []byte("u"), &reply)
 		u.end = time.Now()
@@ -303,11 +292,6 @@ func c11Scenario(g []c11Sym, variant string, seq []int, res *c11Result) {
 	s := &c11RPCObs{done: make(chan struct{})}
 	go func() {
 		defer close(s.done)
-		defer func() {
-			if p := recover(); p != nil {
-				s.panic = fmt.Sprintf("%v\n%s", p, c11Stack())
-			}
-		}()
 		if e := stream.SendMsg([]byte("m1")); e != nil {
 			s.send2 = "first SendMsg: " + e.Error()
 		}
@@ -448,10 +432,6 @@ func c11Scenario(g []c11Sym, variant string, seq []int, res *c11Result) {
 		if !done {
 			return name + "=hung"
 		}
-		if o.panic != "" {
-			res.viol("panic-"+name, "panic out of the gRPC API on the %s goroutine: %s", name, o.panic)
-			return name + "=panic"
-		}
 		cs, code := c11Code(o.err, eofOK)
 		if code < 0 {
 			res.viol("nonstatus-"+name, "%s ended with an error that carries no status: %T %v", name, o.err, o.err)
@@ -473,7 +453,7 @@ func c11Scenario(g []c11Sym, variant string, seq []int, res *c11Result) {
 	}
 	uc := check("unary", u, uDone, c11UnaryDeadline, false)
 	sc := check("stream", s, sDone, c11StreamDeadline, true)
-	if sDone && s.panic == "" {
+	if sDone {
 		strict := os.Getenv("VERIF_C11_STRICT_RECV") != ""
 		c1, _ := c11Code(s.err, true)
 		c2, _ := c11Code(s.err2, true)
@@ -499,14 +479,15 @@ func c11Scenario(g []c11Sym, variant string, seq []int, res *c11Result) {
 	if sDone {
 		res.Stream = fmt.Sprintf("%v @+%v msgs=%d send2=%s", s.err, s.end.Sub(start), s.msgs, s.send2)
 	}
-	// Exactly one end per attempt, as seen by an observer of the RPC (the
-	// stats handler): every Begin is matched by exactly one End once the RPC
-	// has returned and the channel is closed.
+	// Observer's view of the RPCs (stats handler): is every Begin matched by
+	// exactly one End once the RPC has returned and the channel is closed?
 	sh.mu.Lock()
 	res.EndAgrees = "agree"
 	for _, m := range []string{"/c11/Bidi", "/c11/Unary"} {
 		if sh.begins[m] < 1 || sh.begins[m] != sh.ends[m] {
-			res.viol("attempt-ends", "stats handler saw %d Begin but %d End events for %s: the RPC returned a status to the caller but an attempt never ended (or ended twice)", sh.begins[m], sh.ends[m], m)
+			// Not a C11 clause (it belongs to C23, "every pick's Done runs exactly
+			// once"): recorded as a statistic with the sequences, never a verdict.
+			res.AttemptEnds = fmt.Sprintf("%s: %d Begin, %d End", m, sh.begins[m], sh.ends[m])
 		}
 	}
 	if uDone && sDone {
